@@ -33,6 +33,10 @@ type VM struct {
 	// EndScope() closes the scope it was paired with even when the current module
 	// has changed in between (an error leaves call frames on the stack)
 	scopeTrail []*Scope
+
+	// constructors - the constructors this execution has given to types it does not own
+	// (types exported by a library are shared by every execution of the process)
+	constructors map[Element]FuncExecutor
 }
 
 type ElementMap = map[string]Element
@@ -190,6 +194,20 @@ func (vm *VM) UnwindCallStack(depth int) {
 	for vm.csCount > depth && vm.csCount > 0 {
 		vm.PopCallFrame()
 	}
+}
+
+// SetConstructorOf - replace the constructor of a type for this execution only
+func (vm *VM) SetConstructorOf(classRef Element, fn FuncExecutor) {
+	if vm.constructors == nil {
+		vm.constructors = map[Element]FuncExecutor{}
+	}
+	vm.constructors[classRef] = fn
+}
+
+// GetConstructorOf - the constructor this execution has given to the type, if any
+func (vm *VM) GetConstructorOf(classRef Element) (FuncExecutor, bool) {
+	fn, ok := vm.constructors[classRef]
+	return fn, ok
 }
 
 // SetCurrentLine
